@@ -37,12 +37,12 @@ inline void collectTermSlots(Expr& e, std::vector<Slot>& out) {
 inline void collectNodes(Expr& e, std::vector<Expr*>& out) { out.push_back(&e); for (auto& k : e.kids) collectNodes(*k, out); }
 
 // returns a mutated deep copy and the name of the operator applied ("" if nothing applicable)
-inline EP mutate(pbt::Ctx& c, const EP& original, const Gamma& G, std::string& opName) {
+inline EP mutate(pbt::Ctx& c, const EP& original, const Gamma& G, std::string& opName, int forceOp = -1) {
   EP root = mk(TID::PUNC_PL, {clone(original)});  // artificial holder so that the root itself is a slot
   std::vector<Slot> slots; collectTermSlots(*root, slots);
   std::vector<Expr*> nodes; collectNodes(*root->kids[0], nodes);
   for (int attempt = 0; attempt < 6; ++attempt) {
-    const int op = c.ipick(0, 9);
+    const int op = forceOp >= 0 && attempt == 0 ? forceOp : c.ipick(0, 9);
     switch (op) {
       case 0: {  // swap operands of a binary node
         std::vector<Expr*> bin; for (auto* n : nodes) if (n->kids.size() == 2 && (isSetexprBinary(n->id) || isLogicBin(n->id) || (isPredicateOp(n->id) && n->id != TID::ITERATE && n->id != TID::ASSIGN))) bin.push_back(n);
